@@ -7,7 +7,10 @@ A scenario (network + config + history from the full alphabet) is executed
      (other networks / configs incl. debug=True, the symbolic fallback, injected
      solver failures and resource-limit errors);
  (d) after a long unrelated prefix;
- (b) in fresh interpreters under other PYTHONHASHSEED values.
+ (e) block-first scenarios: the unrelated prefix and then the scenario in a brand-new
+     interpreter (a per-process memo is otherwise filled by the reference itself);
+ (b) under other PYTHONHASHSEED values (screened in long-lived child interpreters,
+     confirmed in a brand-new one).
 The scenario's own event log (op outcomes, canonical results, dumps with ids) must
 be identical in all executions.  Walk mode and model reordering are off: the
 shipped seed 123 is part of what is being reproduced."""
@@ -27,6 +30,78 @@ from ..ops import World
 ROOT = os.path.dirname(os.path.dirname(os.path.dirname(os.path.abspath(__file__))))
 HASH_SEEDS = ["1", "4242", "random"]
 DEFAULT_MAX_MOTIFS = 100_000
+
+
+class HashChild:
+    """A long-lived interpreter started under another PYTHONHASHSEED that executes scenarios
+    sent to it one per line (child side: exec_server_main).  Used as a *screen*: a difference
+    seen here is confirmed in a truly fresh interpreter before it is reported, so that the
+    child's own history can never be the cause of an alarm."""
+
+    MAX_USES = 150
+    pool = {}
+
+    def __init__(self, hs):
+        env = dict(os.environ)
+        env["PYTHONHASHSEED"] = hs
+        self.hs = hs
+        self.uses = 0
+        self.p = subprocess.Popen([sys.executable, os.path.join(ROOT, "check"), "C19", "--exec-server"], stdin=subprocess.PIPE, stdout=subprocess.PIPE, stderr=subprocess.DEVNULL, text=True, env=env, cwd=ROOT)
+
+    @classmethod
+    def get(cls, hs):
+        c = cls.pool.get(hs)
+        if c is not None and (c.p.poll() is not None or c.uses >= cls.MAX_USES):
+            c.close()
+            c = None
+        if c is None:
+            c = cls.pool[hs] = HashChild(hs)
+        return c
+
+    def close(self):
+        try:
+            self.p.stdin.close()
+        except OSError:
+            pass
+        try:
+            self.p.wait(timeout=5)
+        except subprocess.TimeoutExpired:
+            self.p.kill()
+        HashChild.pool.pop(self.hs, None)
+
+    def execute(self, payload, timeout=600):
+        """Returns the event log or raises RuntimeError."""
+        import select
+
+        self.uses += 1
+        try:
+            self.p.stdin.write(payload.replace("\n", " ") + "\n")
+            self.p.stdin.flush()
+        except (OSError, ValueError) as e:
+            self.close()
+            raise RuntimeError(f"child pipe: {e}")
+        fd = self.p.stdout
+        import time as _t
+
+        t_end = _t.monotonic() + timeout
+        while True:
+            left = t_end - _t.monotonic()
+            if left <= 0:
+                self.p.kill()
+                self.close()
+                raise RuntimeError("timed out")
+            r, _, _ = select.select([fd], [], [], min(left, 5.0))
+            if not r:
+                if self.p.poll() is not None:
+                    self.close()
+                    raise RuntimeError("child died")
+                continue
+            line = fd.readline()
+            if line == "":
+                self.close()
+                raise RuntimeError("child closed its output")
+            if line.startswith("EXEC-LOG "):
+                return json.loads(line[len("EXEC-LOG "):])
 
 
 def canon_value(op, val):
@@ -104,10 +179,18 @@ class C19(Machine):
         rng = sub_rng(run_seed, "net")
         net = gen_network(rng, self.FAMILY_WEIGHTS, nmax=self.NMAX.get(tier, 6), fmts=self.FMTS, shuffle_order=True)
         prng = sub_rng(run_seed, "params")
-        sc = {"property": self.ID, "run_seed": run_seed, "tier": tier, "net": net, "config": None, "walk_seed": None, "reorder_seed": None, "ops_seed": run_seed, "params": {"len": prng.randint(2, 9), "hash_seeds": (HASH_SEEDS[: 2 if tier == "quick" else 3] if prng.random() < (0.35 if tier == "quick" else 0.6) else []), "other_seed": prng.randrange(1 << 30)}}
+        sc = {"property": self.ID, "run_seed": run_seed, "tier": tier, "net": net, "config": None, "walk_seed": None, "reorder_seed": None, "ops_seed": run_seed, "params": {"len": prng.randint(2, 9), "hash_seeds": (HASH_SEEDS[: 2 if tier == "quick" else 3] if prng.random() < (0.6 if tier == "quick" else 0.75) else []), "other_seed": prng.randrange(1 << 30)}}
         if prng.random() < 0.3:
             sc["config"] = gen_knobs(prng, p=0.3)
-        if prng.random() < 0.2:
+        if prng.random() < 0.15:
+            # dead-branch scenario: a motif-avoidant core gated by constants (every node's
+            # restricted Petri net is a small part of the network's net), expanded, then the
+            # seeds of every node, always compared under other hash seeds
+            sc["params"]["mode"] = "deadpad"
+            sc["config"] = None
+            sc["params"]["hash_seeds"] = HASH_SEEDS[:2] + ["7"]
+            sc["net"] = gen_network(sub_rng(run_seed, "net-deadpad"), {"maa_deadpad": 1}, nmax=self.NMAX.get(tier, 6), fmts=self.FMTS, shuffle_order=True)
+        elif prng.random() < 0.2:
             # block-first scenario: the history starts with block expansion / build (which runs
             # motif-avoidance checks on sub-diagrams of blocks), and one of the unrelated worlds
             # is the same network under tight candidate limits expanded the same way
@@ -151,6 +234,12 @@ class C19(Machine):
             if rng.random() < 0.5:
                 rng.shuffle(ids)
             for i in ids[:14]:
+                seq.append({"op": "seeds", "node": w.space_of(i), "compute": True, "fallback": False})
+            return seq
+        if sc["params"].get("mode") == "deadpad":
+            seq = [rng.choice([{"op": "bfs", "node": None, "level": None, "size": None}, {"op": "build"}, {"op": "dfs", "node": None, "stack": None, "size": None}])]
+            w.apply(seq[0])
+            for i in list(w.node_ids())[:14]:
                 seq.append({"op": "seeds", "node": w.space_of(i), "compute": True, "fallback": False})
             return seq
         if sc["params"].get("mode") == "block_first":
@@ -206,6 +295,10 @@ class C19(Machine):
                 if nets[j][0] is sc["net"] and (r < 0.5 or first_same[0]):
                     first_same[0] = False
                     oop = rng.choice([{"op": "block", "maa": True, "size": None, "opt_src": True, "exact": False}, {"op": "build"}, {"op": "scc", "maa": True}])
+                    if rng.random() < 0.5:
+                        # a solver failure inside the other diagram's block / SCC checks is absorbed
+                        # there ("not clean"); it must not leak into this diagram's verdicts
+                        oop["fail_at"] = rng.randint(1, 30)
                 elif r < 0.2:
                     oop = {"op": "seeds", "node": sw.space_of(rng.choice(sw.node_ids())), "compute": True, "fallback": True, "fail_at": 1}
                 else:
@@ -238,7 +331,7 @@ class C19(Machine):
             vio.append(viol(self.ID, "differs_on_second_build_in_same_process", d[0], {"what": d[1], "op": ops[d[0] - 1] if 0 < d[0] <= len(ops) else None, "first": d[2], "second": d[3]}, "same_process"))
         # (c) interleaved with unrelated diagrams, (d) after an unrelated prefix
         other_ops = 0
-        for mode in ("interleave", "prefix"):
+        for mode in () if sc["params"].get("mode") == "deadpad" else ("interleave", "prefix"):
             if vio:
                 break
             plan = self.other_plan(sc, ops, mode)
@@ -248,11 +341,48 @@ class C19(Machine):
             d = first_diff(ref_log, log_c)
             if d:
                 vio.append(viol(self.ID, "depends_on_unrelated_diagrams", d[0], {"what": d[1], "mode": mode, "op": ops[d[0] - 1] if 0 < d[0] <= len(ops) else None, "alone": d[2], "with_others": d[3]}, mode))
+        # (e) block-first scenarios: the unrelated prefix and then the scenario in a brand-new
+        # interpreter.  In this process the reference execution came first, so anything the
+        # library remembers per process (rather than per diagram) was already fixed by it; only
+        # a process whose *first* contact with the network is the unrelated diagram can differ.
+        prefix_fresh = 0
+        if not vio and sc["params"].get("mode") == "block_first" and sub_rng(sc["params"]["other_seed"], "prefix-fresh").random() < 0.85:
+            plan = self.other_plan(sc, ops, "prefix")
+            flat = [[i, widx, net, cfg, oop] for i, items in plan.items() for (widx, net, cfg, oop) in items]
+            payload_e = json.dumps({"scenario": {k: v for k, v in sc.items() if k != "ops"}, "ops": ops, "plan": flat}, default=D._default)
+            try:
+                p = subprocess.run([sys.executable, os.path.join(ROOT, "check"), "C19", "--exec-trace"], input=payload_e, capture_output=True, text=True, timeout=600, cwd=ROOT)
+                line = [ln for ln in p.stdout.splitlines() if ln.startswith("EXEC-LOG ")]
+            except subprocess.TimeoutExpired:
+                line = None
+            if not line:
+                res["harness_error"] = "fresh interpreter (unrelated prefix) gave no log"
+            else:
+                execs += 1
+                prefix_fresh = 1
+                d = first_diff(json.loads(json.dumps(ref_log)), json.loads(line[0][len("EXEC-LOG "):]))
+                if d:
+                    vio.append(viol(self.ID, "depends_on_unrelated_diagrams", d[0], {"what": d[1], "mode": "prefix in a new interpreter", "op": ops[d[0] - 1] if 0 < d[0] <= len(ops) else None, "alone": d[2], "with_others": d[3]}, "prefix_new_process"))
         # (b) fresh interpreters under other hash seeds
         hs_done = []
+        screened = fresh = unconfirmed = 0
         if not vio:
             payload = json.dumps({"scenario": {k: v for k, v in sc.items() if k != "ops"}, "ops": ops}, default=D._default)
             for hs in sc["params"].get("hash_seeds", []):
+                was_screened = False
+                if hs != "random" and not sc.get("ops") and not os.environ.get("BIOSIM_NO_HASH_SCREEN"):
+                    # screen in the long-lived child first; only a difference is re-examined
+                    try:
+                        log_s = HashChild.get(hs).execute(payload)
+                    except RuntimeError as e:
+                        res["harness_error"] = f"hash-seed child (PYTHONHASHSEED={hs}): {e}"
+                        break
+                    execs += 1
+                    hs_done.append(hs)
+                    if not first_diff(json.loads(json.dumps(ref_log)), log_s):
+                        continue
+                    screened += 1
+                    was_screened = True
                 env = dict(os.environ)
                 env["PYTHONHASHSEED"] = hs
                 try:
@@ -266,11 +396,15 @@ class C19(Machine):
                     break
                 log_b = json.loads(line[0][len("EXEC-LOG "):])
                 execs += 1
-                hs_done.append(hs)
+                fresh += 1
+                if hs not in hs_done:
+                    hs_done.append(hs)
                 d = first_diff(json.loads(json.dumps(ref_log)), log_b)
                 if d:
                     vio.append(viol(self.ID, "differs_in_fresh_interpreter", d[0], {"what": d[1], "hash_seed": hs, "op": ops[d[0] - 1] if 0 < d[0] <= len(ops) else None, "here": d[2], "fresh": d[3]}, "hash_seed"))
                     break
+                if was_screened:
+                    unconfirmed += 1
         res["violations"] = vio
         finish(res, w, sc, ops)
         res["log_digest"] = D.digest(ref_log)
@@ -279,14 +413,20 @@ class C19(Machine):
         res["stats"]["executions"] = execs
         res["stats"]["unrelated_ops"] = other_ops
         res["stats"]["hash_seeds"] = hs_done
-        res["stats"]["faults"] = {"fresh_interpreter": len(hs_done), "unrelated_interleaving": 1 if other_ops else 0}
+        res["stats"]["fresh"] = fresh + prefix_fresh
+        res["stats"]["prefix_fresh"] = prefix_fresh
+        res["stats"]["screen_unconfirmed"] = unconfirmed
+        res["stats"]["faults"] = {"other_hash_seed_process": len(hs_done), "fresh_interpreter": fresh + prefix_fresh, "unrelated_interleaving": 1 if other_ops else 0}
         return res
 
     def evidence_extra(self, results):
         return {
             "executions_compared": sum((r.get("stats") or {}).get("executions", 0) for r in results),
             "unrelated_ops_interleaved": sum((r.get("stats") or {}).get("unrelated_ops", 0) for r in results),
-            "fresh_interpreter_runs": sum(len((r.get("stats") or {}).get("hash_seeds", [])) for r in results),
+            "other_hash_seed_executions": sum(len((r.get("stats") or {}).get("hash_seeds", [])) for r in results),
+            "unrelated_prefix_then_scenario_in_a_brand_new_interpreter": sum((r.get("stats") or {}).get("prefix_fresh", 0) for r in results),
+            "of_which_in_a_brand_new_interpreter": sum((r.get("stats") or {}).get("fresh", 0) for r in results),
+            "screen_differences_not_confirmed_in_a_new_interpreter": sum((r.get("stats") or {}).get("screen_unconfirmed", 0) for r in results),
         }
 
 
@@ -297,8 +437,34 @@ def exec_trace_main():
 
     seams.install()
     seams.reset_faults()
-    log, _w = execute(data["scenario"], data["ops"])
+    plan = None
+    if data.get("plan"):
+        plan = {}
+        for i, widx, net, cfg, oop in data["plan"]:
+            plan.setdefault(int(i), []).append((widx, net, cfg, oop))
+    log, _w = execute(data["scenario"], data["ops"], plan)
     print("EXEC-LOG " + json.dumps(log))
+    return 0
+
+
+def exec_server_main():
+    """Child side of the hash-seed screen: one {"scenario", "ops"} JSON per input line,
+    one EXEC-LOG line per scenario; ends at EOF (parent gone)."""
+    from .. import seams
+
+    seams.install()
+    for line in sys.stdin:
+        line = line.strip()
+        if not line:
+            continue
+        data = json.loads(line)
+        seams.reset_faults()
+        try:
+            log, _w = execute(data["scenario"], data["ops"])
+        except Exception as e:  # noqa: BLE001
+            log = [["harness-exception", repr(e)[:200], None, None]]
+        sys.stdout.write("EXEC-LOG " + json.dumps(log) + "\n")
+        sys.stdout.flush()
     return 0
 
 
